@@ -85,10 +85,13 @@ def run(chk):
             chk.count("unit", len(unit), [(c["w"], tuple(c["xs"])) for c in unit
                                           if any(c["ok"]) and not all(c["ok"])],
                       samples=[c for c in unit if any(c["ok"]) and not all(c["ok"])][-2:])
+            def ep(c, i):
+                return "(%d,%d)" % (c["epochs"][i], c["seqs"][i])
+            pre_ep = lambda c: clist(["(%d,%d)" % (c["epochs"][0] if c["epochs"] else 1, q) for q in c["pre"]])
             eterms = ["(%d%%nat, %s, %s, %s)" % (
-                c["w"], cNlist(c["pre"]), cNlist([c["seqs"][i] for i in c["script"]]),
+                c["w"], pre_ep(c), clist([ep(c, i) for i in c["script"]]),
                 clist([cbool(d != -1) for d in c["delivered"]])) for c in e2e]
-            bad, err = vlib.coq_mismatches("c06e", IMPORTS, "e2e_case", "e2e_ok", eterms)
+            bad, err = vlib.coq_mismatches("c06e", IMPORTS, "e2e_ep_case", "e2e_ep_ok", eterms)
             if bad is None:
                 chk.broken("correspondence evaluation (e2e) failed in coqc", err)
             else:
